@@ -206,20 +206,32 @@ def d1_index(chk, F):
         e = resolve_place(f, {"l": 0, "p": []})
         txt = full_text(e)
         ls = leaves(e)
-        ok = any(n[0] == "bin" and n[1].startswith("Sub") for n in walk(e)) and \
+        has_sub = any(n[0] == "bin" and n[1].startswith("Sub") for n in walk(e))
+        has_arith = any(n[0] == "bin" for n in walk(e))
+        # two equivalent forms: `push(x); len() - 1`  or  `let i = len(); push(x); i`
+        ok = (has_sub or not has_arith) and \
             any(l.endswith("Vec::<T, A>::len") for l in ls) and any(l == "param:self" + k["table"] for l in ls) and \
             not any(l.startswith("param:self.") and l != "param:self" + k["table"] for l in ls)
         chk.expect(ok, "C06.D1-index", f"{name}|return", f"{f.file}:{f.line}",
                    f"{name}() must return len(self{k['table']}) - 1, the index of the component it just pushed; it returns {txt[:160]}",
                    sample=f"{name}() returns {txt[:100]}")
-        # the len() is evaluated after the push to the same table, with no other push of that table in between
         lens = [b for b, t in calls_to(f, "Vec::len") if has_field(arg_leaves(f, t, 0), k["table"]) and any(
             n[0] == "call" and n[3] == b for n in walk(e))]
         pushes = [b for b, t in calls_to(f, "Vec::push") if has_field(arg_leaves(f, t, 0), k["table"])]
-        ok = bool(lens) and len(pushes) == 1 and all(f.node_dominates(pushes[0], lb) for lb in lens)
-        chk.expect(ok, "C06.D1-index", f"{name}|len-after-push", f"{f.file}:{f.line}",
-                   f"the length returned by {name}() is not taken after the single push to self{k['table']} ({len(pushes)} push(es))",
-                   sample=f"{name}(): push at {f.where(pushes[0]) if pushes else '?'} dominates the len() of the return value")
+        if has_sub:
+            # the len() is evaluated after the push to the same table, with no other push of that table in between
+            ok = bool(lens) and len(pushes) == 1 and all(f.node_dominates(pushes[0], lb) for lb in lens)
+            chk.expect(ok, "C06.D1-index", f"{name}|len-after-push", f"{f.file}:{f.line}",
+                       f"the length returned by {name}() is not taken after the single push to self{k['table']} ({len(pushes)} push(es))",
+                       sample=f"{name}(): push at {f.where(pushes[0]) if pushes else '?'} dominates the len() of the return value")
+        else:
+            # the len() is evaluated before the single push, and every return passes through that push
+            from cfgq import must_pass
+            ok = bool(lens) and len(pushes) == 1 and all(f.node_dominates(lb, pushes[0]) and lb != pushes[0] for lb in lens) and \
+                must_pass(f, [0], pushes, list(f.returns()))
+            chk.expect(ok, "C06.D1-index", f"{name}|len-after-push", f"{f.file}:{f.line}",
+                       f"the length returned by {name}() is neither `len - 1` after the push nor `len` taken right before the single push to self{k['table']} ({len(pushes)} push(es))",
+                       sample=f"{name}(): len() at {f.where(lens[0]) if lens else '?'} precedes the single push at {f.where(pushes[0]) if pushes else '?'}")
     ins = F.funcs.get(R + "in_step")
     if ins is None:
         chk.fail("anchor-missing", R + "in_step", "", "anchor-missing: in_step not found")
